@@ -63,6 +63,14 @@ let handle (line : string) : string =
   | ["fe"; "swtpm"; t] -> string_of_cl (run_fe_swtpm (bytes_of_hex t))
   | ["fe"; "auto"; t] -> string_of_cl (run_fe_auto (bytes_of_hex t))
   | ["fe"; "pcap"; t] -> string_of_cl (run_fe_pcap (List.map bytes_of_hex (if t = "-" then [] else String.split_on_char ',' t)))
+  | ["pretty"; tb; abort; root; hex] ->
+      let tbl = tables_of tb in
+      (match root_of tbl root with
+       | None -> "NOROOT"
+       | Some r -> string_of_cl (run_pretty (tb = "cur") (abort = "1") r (bytes_of_hex hex)))
+  | ["cli"; t; c; f] ->
+      let o x = if x = "-" then None else Some (cl_of_string x) in
+      string_of_cl (run_cli (o t) (o c) (cl_of_string f))
   | ["rc"; tb; v] -> string_of_cl (run_rc (tb = "cur") (z_of_string v))
   | ["rcspec"; v] -> string_of_cl (run_rc_spec (z_of_string v))
   | ["int"; tb; name; v] ->
